@@ -1,10 +1,23 @@
 package main
 
-// T1 facts about pkg/server/smtp/handler.go for the SMTP session model (Ibx/Model/Smtp.lean).
+// T1 facts about pkg/server/smtp for the SMTP session model (Ibx/Model/Smtp.lean).
+//
+// Every fact is found through the STRUCTURE of the package (k1kit.go), never through the name of a local variable,
+// of a parameter, of a receiver or of an unexported helper, and never through a log / reply / error text:
+//   * the command loop is the function holding `switch <session>.<state> { case GREET: <session>.h(cmd, arg) … }`;
+//     the handlers of GREET / READY / MAIL are whatever that switch calls, the DATA handler is what the loop calls
+//     under `<session>.<state> == DATA`;
+//   * the reply helper is the unexported method that calls PrintfLine, the state helper the one that assigns its
+//     parameter to the state field, the reset helper the one the any-state RSET clause calls;
+//   * a command table is a switch whose tag is the command word and whose labels are string literals, wherever a
+//     helper boundary happens to be (the AUTH sub-table is the string switch under the READY handler's AUTH clause);
+//   * expressions are rendered canonically ($r receiver, $s session, $cmd / $arg the handler's parameters, $p a
+//     parameter, locals replaced by their definitions, helpers by what they return).
 
 import (
 	"go/ast"
 	"go/token"
+	"regexp"
 	"sort"
 	"strconv"
 	"strings"
@@ -12,213 +25,547 @@ import (
 
 func init() { extractors = append(extractors, extractSmtp) }
 
-// smtpCaseLabels: the string labels of every `case` of the switch statements on `tag` inside n, in source order.
-func smtpCaseLabels(n ast.Node, tag string) [][]string {
-	var res [][]string
-	if n == nil || isNilNode(n) {
-		return res
-	}
-	ast.Inspect(n, func(x ast.Node) bool {
-		sw, ok := x.(*ast.SwitchStmt)
-		if !ok || sw.Tag == nil || src(sw.Tag) != tag {
-			return true
-		}
-		for _, st := range sw.Body.List {
-			cc := st.(*ast.CaseClause)
-			var labels []string
-			for _, e := range cc.List {
-				if lit, ok := e.(*ast.BasicLit); ok && lit.Kind == token.STRING {
-					s, _ := strconv.Unquote(lit.Value)
-					labels = append(labels, s)
-				} else {
-					labels = append(labels, "?"+src(e))
-				}
-			}
-			if cc.List == nil {
-				labels = []string{"<default>"}
-			}
-			res = append(res, labels)
-		}
-		return true
-	})
-	return res
-}
-
-func smtpListOfLists(l [][]string) string {
-	p := []string{}
-	for _, x := range l {
-		p = append(p, strList(x))
-	}
-	return "[" + strings.Join(p, ", ") + "]"
-}
-
-// smtpSliceExprs: every index / slice expression inside n as source text, sorted and de-duplicated.
-func smtpSliceExprs(n ast.Node) []string {
-	set := map[string]bool{}
-	if n == nil || isNilNode(n) {
-		return nil
-	}
-	ast.Inspect(n, func(x ast.Node) bool {
-		switch e := x.(type) {
-		case *ast.SliceExpr:
-			set[src(e)] = true
-		case *ast.IndexExpr:
-			set[src(e)] = true
-		}
-		return true
-	})
-	res := []string{}
-	for k := range set {
-		res = append(res, k)
-	}
-	sort.Strings(res)
-	return res
-}
-
-func smtpContainsCall(n ast.Node, fun string) bool {
-	found := false
-	if n == nil || isNilNode(n) {
-		return false
-	}
-	ast.Inspect(n, func(x ast.Node) bool {
-		if ce, ok := x.(*ast.CallExpr); ok && src(ce.Fun) == fun {
-			found = true
-		}
-		return true
-	})
-	return found
-}
-
 func smtpSrcNoArgs(n ast.Node) string { return src(n) }
 
-func extractSmtp() {
-	g := gen("Smtp")
-	f := parse("pkg/server/smtp/handler.go")
-	// the `commands` map keys
-	var cmds []string
-	if f != nil {
-		for _, d := range f.Decls {
-			gd, ok := d.(*ast.GenDecl)
-			if !ok {
-				continue
+// smtpRoles: the helpers of the package by what they do.
+type smtpRoles struct {
+	pkg      *k1Pkg
+	d        *k1Dispatch
+	send     *ast.FuncDecl // writes a reply line
+	setState *ast.FuncDecl // assigns its parameter to the state field
+	reset    *ast.FuncDecl // called by the any-state RSET clause
+	data     *ast.FuncDecl // called by the loop while the state is DATA
+	parse    *ast.FuncDecl // produces (cmd, arg, ok) from the line
+	anyState *k1Switch
+	from     string // session field handed to Deliver as the sender
+	rcpts    string // session field handed to Deliver as the recipient list
+}
+
+// smtpDirectCall: fd's own body (function literals excluded) calls <x>.name(..).
+func smtpDirectCall(fd *ast.FuncDecl, name string) bool {
+	for _, ce := range k1Calls(fd.Body) {
+		if k1SelCall(ce, name) {
+			return true
+		}
+	}
+	return false
+}
+
+func smtpFindRoles(p *k1Pkg) *smtpRoles {
+	r := &smtpRoles{pkg: p, d: k1FindDispatch(p)}
+	for _, fd := range p.funcs {
+		if fd.Recv == nil || k1Exported(fd.Name.Name) {
+			continue
+		}
+		if smtpDirectCall(fd, "PrintfLine") && r.send == nil {
+			r.send = fd
+		}
+	}
+	if r.d == nil {
+		return r
+	}
+	// the state helper: `recv.<stateField> = <parameter>`
+	for _, fd := range p.funcs {
+		if fd.Recv == nil || k1Exported(fd.Name.Name) || fd.Type.Params == nil || len(fd.Type.Params.List) != 1 {
+			continue
+		}
+		e := k1NewEnv(p, fd)
+		ast.Inspect(fd.Body, func(n ast.Node) bool {
+			as, ok := n.(*ast.AssignStmt)
+			if !ok || as.Tok != token.ASSIGN || len(as.Lhs) != 1 || len(as.Rhs) != 1 {
+				return true
 			}
-			for _, sp := range gd.Specs {
-				vs, ok := sp.(*ast.ValueSpec)
-				if !ok || len(vs.Names) != 1 || vs.Names[0].Name != "commands" || len(vs.Values) != 1 {
-					continue
+			if e.canon(as.Lhs[0]) == "$r."+r.d.stateField && e.canon(as.Rhs[0]) == "$p" {
+				r.setState = fd
+			}
+			return true
+		})
+	}
+	// the DATA handler: `if <session>.<state> == DATA { <session>.h() … }` inside the loop
+	ast.Inspect(r.d.fn.Body, func(n ast.Node) bool {
+		is, ok := n.(*ast.IfStmt)
+		if !ok || r.d.env.canon(is.Cond) != "$s."+r.d.stateField+" == DATA" {
+			return true
+		}
+		for _, ce := range k1Calls(is.Body) {
+			if fd := p.resolve(ce); fd != nil && fd != r.send && r.data == nil {
+				r.data = fd
+			}
+		}
+		return true
+	})
+	// the any-state table: the string switch on $cmd of the loop that is not reached through the state dispatch
+	r.d.env.skip = map[ast.Node]bool{r.d.sw: true}
+	var any []k1Switch
+	for _, s := range r.d.env.strSwitches([]ast.Node{r.d.fn.Body}, 1) {
+		if s.env.canon(s.sw.Tag) == "$cmd" {
+			any = append(any, s)
+		}
+	}
+	if len(any) == 1 {
+		r.anyState = &any[0]
+		if cc := r.anyState.clause("RSET"); cc != nil {
+			var hs []*ast.FuncDecl
+			for _, st := range cc.Body {
+				for _, ce := range k1Calls(st) {
+					if fd := p.resolve(ce); fd != nil && fd != r.send && fd != r.setState {
+						hs = append(hs, fd)
+					}
 				}
-				if cl, ok := vs.Values[0].(*ast.CompositeLit); ok {
-					for _, e := range cl.Elts {
-						if kv, ok := e.(*ast.KeyValueExpr); ok {
-							if lit, ok := kv.Key.(*ast.BasicLit); ok && src(kv.Value) == "true" {
-								s, _ := strconv.Unquote(lit.Value)
-								cmds = append(cmds, s)
-							}
+			}
+			if len(hs) == 1 {
+				r.reset = hs[0]
+			}
+		}
+	}
+	// the parser: cmd is result 0 of a helper call
+	if ds := r.d.env.defs[r.d.cmd]; len(ds) == 1 && ds[0].rhs != nil {
+		if ce, ok := k1Unparen(ds[0].rhs).(*ast.CallExpr); ok && ds[0].idx == 0 {
+			r.parse = p.resolve(ce)
+		}
+	}
+	// the envelope fields: what the DATA handler hands to Deliver
+	if r.data != nil {
+		e := k1NewEnv(p, r.data)
+		for _, ce := range k1Calls(r.data.Body) {
+			if k1SelCall(ce, "Deliver") && len(ce.Args) == 4 {
+				a0, a1 := e.canon(ce.Args[0]), e.canon(ce.Args[1])
+				if strings.HasPrefix(a0, "$r.") && strings.HasPrefix(a1, "$r.") {
+					r.from, r.rcpts = a0[3:], a1[3:]
+				}
+			}
+		}
+	}
+	return r
+}
+
+// smtpReplyCode: "250" / "250-" from the first string literal inside the reply expression, "*" when the code is
+// computed (an extension's own reply).
+func smtpReplyCode(e *k1Env, x ast.Expr) string {
+	code := "*"
+	found := false
+	var look func(n ast.Node)
+	look = func(n ast.Node) {
+		ast.Inspect(n, func(y ast.Node) bool {
+			if found {
+				return false
+			}
+			switch v := y.(type) {
+			case *ast.BasicLit:
+				if s, ok := k1Str(v); ok {
+					found = true
+					if len(s) >= 3 && s[0] >= '0' && s[0] <= '9' && s[1] >= '0' && s[1] <= '9' && s[2] >= '0' && s[2] <= '9' {
+						code = s[:3]
+						if len(s) > 3 && s[3] == '-' {
+							code += "-"
 						}
 					}
 				}
+			case *ast.Ident:
+				if d := e.deref(v); d != ast.Expr(v) {
+					look(d)
+				}
+			}
+			return true
+		})
+	}
+	look(x)
+	return code
+}
+
+var smtpSeen = map[string]bool{"Deliver": true, "ReadDotBytes": true, "ReadLine": true, "NewRecipient": true, "ParseOrigin": true,
+	"ShouldAccept": true, "Emit": true}
+
+func (r *smtpRoles) walker() *k1Walker {
+	w := &k1Walker{}
+	w.classify = func(e *k1Env, ce *ast.CallExpr) (string, bool) {
+		fd := r.pkg.resolve(ce)
+		switch {
+		case fd != nil && fd == r.send:
+			if len(ce.Args) == 1 {
+				return "send:" + smtpReplyCode(e, ce.Args[0]), false
+			}
+			return "send:?", false
+		case fd != nil && fd == r.setState:
+			if len(ce.Args) == 1 {
+				return "state:" + e.canon(ce.Args[0]), false
+			}
+			return "state:?", false
+		case fd != nil && fd == r.reset:
+			return "reset", false
+		case fd != nil:
+			return "", true
+		}
+		if sel, ok := ce.Fun.(*ast.SelectorExpr); ok && smtpSeen[sel.Sel.Name] {
+			if sel.Sel.Name == "Emit" {
+				if in, ok := sel.X.(*ast.SelectorExpr); ok {
+					return "emit:" + in.Sel.Name, false
+				}
+			}
+			return "call:" + sel.Sel.Name, false
+		}
+		return "", false
+	}
+	w.assign = func(e *k1Env, lhs, rhs ast.Expr) string {
+		l := e.canon(lhs)
+		for _, pre := range []string{"$r.", "$s."} {
+			if strings.HasPrefix(l, pre) {
+				f := l[len(pre):]
+				switch {
+				case r.d != nil && f == r.d.stateField:
+					return "state:" + e.canon(rhs)
+				case f == r.from && f != "":
+					return "set:from=" + r.short(e, rhs)
+				case f == r.rcpts && f != "":
+					return "set:rcpts=" + r.short(e, rhs)
+				}
+			}
+		}
+		return ""
+	}
+	return w
+}
+
+// short: canonical form with the envelope fields named by role
+func (r *smtpRoles) short(e *k1Env, x ast.Expr) string {
+	s := e.canon(x)
+	if r.rcpts != "" {
+		s = strings.ReplaceAll(s, "$r."+r.rcpts, "$rcpts")
+	}
+	if r.from != "" {
+		s = strings.ReplaceAll(s, "$r."+r.from, "$from")
+	}
+	return s
+}
+
+func (r *smtpRoles) elide(e *k1Env) {
+	e.elide = func(ce *ast.CallExpr) (string, bool) {
+		if sel, ok := ce.Fun.(*ast.SelectorExpr); ok && smtpSeen[sel.Sel.Name] && r.pkg.resolve(ce) == nil {
+			if sel.Sel.Name == "Emit" {
+				if in, ok := sel.X.(*ast.SelectorExpr); ok {
+					return in.Sel.Name + ".Emit(..)", true
+				}
+			}
+			return sel.Sel.Name + "(..)", true
+		}
+		return "", false
+	}
+}
+
+func (r *smtpRoles) roleNames(paths []string) []string {
+	out := []string{}
+	for _, s := range paths {
+		if r.rcpts != "" {
+			s = strings.ReplaceAll(s, "$r."+r.rcpts, "$rcpts")
+		}
+		if r.from != "" {
+			s = strings.ReplaceAll(s, "$r."+r.from, "$from")
+		}
+		if r.d != nil {
+			s = strings.ReplaceAll(s, "$r."+r.d.stateField, "$state")
+		}
+		out = append(out, s)
+	}
+	return out
+}
+
+var smtpLimitRe = regexp.MustCompile(`\[len\(\$rcpts\) (\S+) \$r\.config\.MaxRecipients\]`)
+var smtpArgMinRe = regexp.MustCompile(`len\(\$arg\) (\S+) (\d+)\b`)
+
+func extractSmtp() {
+	defer k1Recover("extractSmtp")
+	g := gen("Smtp")
+	p := k1LoadPkg("pkg/server/smtp")
+	r := smtpFindRoles(p)
+
+	// ---- the command tables
+	keys, vals, ok := p.boolMapKeys()
+	cmds := []string{}
+	if ok {
+		for i, k := range keys {
+			if vals[i] == "true" {
+				cmds = append(cmds, k)
 			}
 		}
 	}
-	g.def("commands", "List String", strList(cmds), "keys of the `commands` map (value true), in source order")
-	ss := fn(f, "Server", "startSession")
-	g.def("anyStateCases", "List (List String)", smtpListOfLists(smtpCaseLabels(ss, "cmd")), "case labels of the any-state `switch cmd` in startSession")
-	g.def("greetCases", "List (List String)", smtpListOfLists(smtpCaseLabels(fn(f, "Session", "greetHandler"), "cmd")), "")
-	g.def("readyCases", "List (List String)", smtpListOfLists(smtpCaseLabels(fn(f, "Session", "readyHandler"), "cmd")), "")
-	g.def("mailCases", "List (List String)", smtpListOfLists(smtpCaseLabels(fn(f, "Session", "mailHandler"), "cmd")), "")
-	g.def("authCases", "List (List String)", smtpListOfLists(smtpCaseLabels(fn(f, "Session", "readyHandler"), "authMethod")), "")
-	// reset(): does it keep GREET?
-	rs := fn(f, "Session", "reset")
-	resetFact := "unknown"
-	if rs != nil && rs.Body != nil && len(rs.Body.List) > 0 {
-		switch first := rs.Body.List[0].(type) {
-		case *ast.IfStmt:
-			if src(first.Cond) == "s.state != GREET" && first.Else == nil && len(first.Body.List) == 1 && src(first.Body.List[0]) == "s.enterState(READY)" {
-				resetFact = "keepsGreet"
+	g.def("commands", "List String", strList(cmds), "keys (value true) of the package's command set (its one package-level map[string]bool literal), in source order")
+	states := []string{}
+	if r.d != nil {
+		states = r.d.states
+	}
+	g.def("dispatchStates", "List String", strList(states), "the states the command loop dispatches to a handler(cmd, arg), in source order")
+	none := [][]string{}
+	anyCases := none
+	if r.anyState != nil {
+		anyCases = r.anyState.labels
+	}
+	g.def("anyStateCases", "List (List String)", k1ListOfLists(anyCases), "case labels of the any-state command switch of the command loop (the string switch on the command word outside the state dispatch)")
+	table := func(state string) (*k1Switch, [][]string) {
+		if r.d == nil || r.d.handlers[state] == nil {
+			return nil, none
+		}
+		s := k1TopSwitch(r.d.handlerEnv(p, state), r.d.handlers[state].Body)
+		if s == nil {
+			return nil, none
+		}
+		ls := s.labels
+		if h := r.d.handlers[state]; s.clause("<default>") == nil && s.env.level == 0 && len(h.Body.List) > 0 && h.Body.List[len(h.Body.List)-1] != ast.Stmt(s.sw) {
+			// statements behind a table without default clause: the default written differently
+			ls = append(append([][]string{}, ls...), []string{"<default>"})
+		}
+		return s, ls
+	}
+	_, gc := table("GREET")
+	rs, rc := table("READY")
+	ms, mc := table("MAIL")
+	g.def("greetCases", "List (List String)", k1ListOfLists(gc), "command table of the GREET handler")
+	g.def("readyCases", "List (List String)", k1ListOfLists(rc), "command table of the READY handler")
+	g.def("mailCases", "List (List String)", k1ListOfLists(mc), "command table of the MAIL handler")
+	ac := none
+	authTag := ""
+	if rs != nil {
+		if cc := rs.clause("AUTH"); cc != nil {
+			if in := rs.env.strSwitches(k1ClauseNodes(cc), 2); len(in) == 1 {
+				ac = in[0].labels
+				authTag = in[0].env.canon(in[0].sw.Tag)
 			}
-		case *ast.ExprStmt:
-			if src(first) == "s.enterState(READY)" {
+		}
+	}
+	g.def("authCases", "List (List String)", k1ListOfLists(ac), "the string switch under the AUTH clause of the READY table (through helpers)")
+	g.def("authTag", "String", leanStr(authTag), "what that switch looks at")
+
+	// ---- the transition table: every clause of every command table as its exits
+	trans := []string{}
+	addTable := func(state string, sw *k1Switch) {
+		if sw == nil {
+			trans = append(trans, "("+leanStr(state)+", \"?\", [])")
+			return
+		}
+		// what the handler does behind its table (the MAIL handler answers 503 there); nothing = leaving a clause is returning
+		after := []string{"end"}
+		if h := sw.env.fd; h != nil && sw.env.level == 0 && state != "*" {
+			e := sw.env
+			var rest []ast.Stmt
+			for _, st := range h.Body.List {
+				if st != ast.Stmt(sw.sw) {
+					rest = append(rest, st)
+				}
+			}
+			after = r.roleNames(k1PathStrings(r.walker().block(e, rest)))
+		}
+		plain := len(after) == 1 && after[0] == "end"
+		for i, cc := range sw.clauses {
+			e := sw.env
+			r.elide(e)
+			ps := r.roleNames(k1PathStrings(r.walker().block(e, cc.Body)))
+			e.elide = nil
+			if plain && state != "*" {
+				ps = k1AsReturn(ps)
+			}
+			trans = append(trans, "("+leanStr(state)+", "+leanStr(strings.Join(sw.labels[i], ","))+", "+strList(ps)+")")
+		}
+		if !plain {
+			// code behind a table whose clauses all return is the table's default clause written differently
+			label := "<after>"
+			if sw.clause("<default>") == nil {
+				label = "<default>"
+			}
+			trans = append(trans, "("+leanStr(state)+", "+leanStr(label)+", "+strList(k1AsReturn(after))+")")
+		}
+	}
+	addTable("*", r.anyState)
+	gs, _ := table("GREET")
+	addTable("GREET", gs)
+	addTable("READY", rs)
+	addTable("MAIL", ms)
+	g.def("transitions", "List (String × String × List String)", "[\n  "+strings.Join(trans, ",\n  ")+"]",
+		"(state, clause labels, exits) for every clause of the any-state table (*) and of the GREET / READY / MAIL tables, and for what a handler does outside its table (<after>); exits in the notation of dataPaths")
+
+	// ---- reset()
+	resetFact := "unknown"
+	if r.reset != nil && r.d != nil && r.from != "" && r.rcpts != "" {
+		e := k1NewEnv(p, r.reset)
+		ps := r.roleNames(k1PathStrings(r.walker().block(e, r.reset.Body.List)))
+		if len(ps) == 1 {
+			ev := strings.Split(ps[0], "; ")
+			sort.Strings(ev)
+			switch strings.Join(ev, "; ") {
+			case "?[$state != GREET]state:READY; end; set:from=nil; set:rcpts=nil":
+				resetFact = "keepsGreet"
+			case "end; set:from=nil; set:rcpts=nil; state:READY":
 				resetFact = "promotesToReady"
 			}
 		}
-		// the rest must clear the envelope
-		body := src(rs.Body)
-		if !strings.Contains(body, "s.from = nil") || !strings.Contains(body, "s.recipients = nil") {
-			resetFact = "unknown"
+	}
+	g.def("resetFromGreet", "String", leanStr(resetFact), "what the reset helper (the one the any-state RSET clause calls) does: keepsGreet = clears sender and recipients and enters READY unless the state is GREET | promotesToReady = clears them and enters READY | unknown")
+
+	// ---- the DATA handler: its exits
+	dataPaths := []string{}
+	if r.data != nil {
+		e := k1NewEnv(p, r.data)
+		r.elide(e)
+		dataPaths = r.roleNames(k1AsReturn(k1PathStrings(r.walker().block(e, r.data.Body.List))))
+	}
+	g.def("dataPaths", "List String", strList(dataPaths), "the exits of the DATA handler: replies (send:code), helper and library calls of interest, state changes, in execution order; [c] = the guard of an exit, ?[c]e = e happens under c and execution goes on")
+	sizeFact := "none"
+	nReset := 0
+	for _, s := range dataPaths {
+		if strings.HasSuffix(s, "; reset; return") {
+			nReset++
+		}
+		if i := strings.Index(s, "[len(ReadDotBytes(..)#0) "); i >= 0 {
+			if strings.HasSuffix(s, "call:ReadDotBytes; [len(ReadDotBytes(..)#0) > $r.config.MaxMessageBytes]; send:552; reset; return") {
+				sizeFact = "afterRead"
+			} else {
+				sizeFact = "unknown"
+			}
 		}
 	}
-	g.def("resetFromGreet", "String", leanStr(resetFact), "shape of Session.reset(): keepsGreet | promotesToReady | unknown")
-	// dataHandler: size check after the block has been read, and reset() on every exit after a successful read
-	dh := fn(f, "Session", "dataHandler")
-	sizeFact := "none"
-	if dh != nil {
-		op, v := "", ""
-		ast.Inspect(dh, func(x ast.Node) bool {
-			if is, ok := x.(*ast.IfStmt); ok {
-				if be, ok := is.Cond.(*ast.BinaryExpr); ok && src(be.X) == "len(msgBuf)" {
-					op, v = be.Op.String(), src(be.Y)
-					body := src(is.Body)
-					if op == ">" && v == "s.config.MaxMessageBytes" && strings.Contains(body, `s.send("552`) && strings.Contains(body, "s.reset()") && strings.Contains(body, "return") {
-						sizeFact = "afterRead"
-					} else {
-						sizeFact = "unknown"
-					}
-				}
-			}
-			return true
-		})
-	} else {
+	if r.data == nil {
 		sizeFact = "unknown"
 	}
-	g.def("dataSizeCheck", "String", leanStr(sizeFact), "dataHandler enforces MaxMessageBytes after reading the block: afterRead | none | unknown")
-	nReset := 0
-	if dh != nil {
-		ast.Inspect(dh, func(x ast.Node) bool {
-			if ce, ok := x.(*ast.CallExpr); ok && src(ce.Fun) == "s.reset" {
-				nReset++
-			}
-			return true
-		})
-	}
-	g.def("dataHandlerResets", "Nat", strconv.Itoa(nReset), "number of s.reset() calls in dataHandler (one per exit after a successful read: 552, 451, 250)")
-	mh := fn(f, "Session", "mailHandler")
+	g.def("dataSizeCheck", "String", leanStr(sizeFact), "the DATA handler refuses (552, reset, return) a block longer than MaxMessageBytes right after reading it: afterRead | none | unknown")
+	g.def("dataHandlerResets", "Nat", strconv.Itoa(nReset), "number of exits of the DATA handler that end with the reset helper (552, 451, 250)")
+
+	// ---- RCPT
+	rcptPaths := []string{}
 	op, lim := "?", "?"
-	if mh != nil {
-		ast.Inspect(mh, func(x ast.Node) bool {
-			if be, ok := x.(*ast.BinaryExpr); ok && src(be.X) == "len(s.recipients)" && src(be.Y) == "s.config.MaxRecipients" {
-				op, lim = be.Op.String(), src(be.Y)
-			}
-			return true
-		})
+	var rcptClause *ast.CaseClause
+	if ms != nil {
+		rcptClause = ms.clause("RCPT")
 	}
-	g.def("rcptLimitTest", "String × String", "("+leanStr(op)+", "+leanStr(lim)+")", "the recipient limit comparison `len(s.recipients) <op> s.config.MaxRecipients`")
-	cmpDef(g, "rcptArgMin", mh, "len(arg)", "<", "minimum RCPT argument length test guarding arg[0:3]")
-	cmpDef(g, "cmdMinLen", fn(f, "Session", "parseCmd"), "l", "<", "parseCmd: commands shorter than this are garbled")
-	// regular expressions
+	if rcptClause != nil {
+		e := ms.env
+		r.elide(e)
+		rcptPaths = r.roleNames(k1PathStrings(r.walker().block(e, rcptClause.Body)))
+		e.elide = nil
+		// the two comparisons the model's RCPT step rests on, read off the guards of the exits
+		n := 0
+		for _, ps := range rcptPaths {
+			for _, m := range smtpLimitRe.FindAllStringSubmatch(ps, -1) {
+				op, lim = m[1], "MaxRecipients"
+				n++
+			}
+		}
+		if n != 1 {
+			op, lim = "?", "?"
+		}
+	}
+	g.def("rcptPaths", "List String", strList(rcptPaths), "the exits of the RCPT clause of the MAIL table (same notation as dataPaths)")
+	g.def("rcptLimitTest", "String × String", "("+leanStr(op)+", "+leanStr(lim)+")", "the recipient limit comparison `len(<recipients>) <op> <config>.MaxRecipients`")
+	smtpCmp := func(name string, e *k1Env, nodes []ast.Node, lhs, wantOp, comment string) {
+		var ops []string
+		var vs []int
+		for _, n := range nodes {
+			if n == nil {
+				continue
+			}
+			ast.Inspect(n, func(x ast.Node) bool {
+				be, ok := x.(*ast.BinaryExpr)
+				if !ok {
+					return true
+				}
+				if lit, ok := k1Unparen(be.Y).(*ast.BasicLit); ok && lit.Kind == token.INT && e.canon(be.X) == lhs && (wantOp == "" || wantOp == be.Op.String()) {
+					if v, err := strconv.Atoi(lit.Value); err == nil {
+						ops = append(ops, be.Op.String())
+						vs = append(vs, v)
+					}
+				}
+				return true
+			})
+		}
+		val := "none"
+		if len(ops) == 1 {
+			val = "some (" + leanStr(ops[0]) + ", " + strconv.Itoa(vs[0]) + ")"
+		}
+		g.def(name, "Option (String × Nat)", val, comment)
+	}
+	{
+		val := "none"
+		var ms [][]string
+		for _, ps := range rcptPaths {
+			ms = append(ms, smtpArgMinRe.FindAllStringSubmatch(ps, -1)...)
+		}
+		if len(ms) == 1 {
+			val = "some (" + leanStr(ms[0][1]) + ", " + ms[0][2] + ")"
+		}
+		g.def("rcptArgMin", "Option (String × Nat)", val, "minimum RCPT argument length test guarding $arg[0:3] (the only comparison of len($arg) with a literal among the guards of rcptPaths)")
+	}
+	if r.parse != nil {
+		// the length of the command word: the variable that holds strings.IndexByte(line, ' ') (or len(line))
+		e := k1NewEnv(p, r.parse)
+		for o, ds := range e.defs {
+			for _, d := range ds {
+				if ce, ok := d.rhs.(*ast.CallExpr); ok && k1QualCall(ce, "strings", "IndexByte") {
+					e.override[o] = "$wordLen"
+				}
+			}
+		}
+		smtpCmp("cmdMinLen", e, []ast.Node{r.parse.Body}, "$wordLen", "<", "the command parser: a command word shorter than this is garbled")
+	} else {
+		g.def("cmdMinLen", "Option (String × Nat)", "none", "command parser not found")
+	}
+
+	// ---- regular expressions
 	var fromRe, argsRe *string
-	if f != nil {
+	for _, f := range p.files {
 		ast.Inspect(f, func(x ast.Node) bool {
 			ce, ok := x.(*ast.CallExpr)
-			if !ok || src(ce.Fun) != "regexp.MustCompile" || len(ce.Args) != 1 {
+			if !ok || !k1QualCall(ce, "regexp", "MustCompile") || len(ce.Args) != 1 {
 				return true
 			}
-			if lit, ok := ce.Args[0].(*ast.BasicLit); ok && lit.Kind == token.STRING {
-				s, err := strconv.Unquote(lit.Value)
-				if err == nil {
-					if strings.Contains(s, "FROM:") {
-						fromRe = &s
-					} else {
-						argsRe = &s
-					}
+			if s, ok := k1Str(ce.Args[0]); ok {
+				s := s
+				if strings.Contains(s, "FROM:") {
+					fromRe = &s
+				} else {
+					argsRe = &s
 				}
 			}
 			return true
 		})
 	}
-	g.def("fromRegex", "Option String", optStr(fromRe), "source text of fromRegex")
-	g.def("argsRegex", "Option String", optStr(argsRe), "source text of the parseArgs expression")
-	g.def("sliceSites", "List String", strList(smtpSliceExprs(f)), "every index / slice expression of handler.go")
-	// manager.Deliver
+	g.def("fromRegex", "Option String", optStr(fromRe), "source text of the MAIL FROM expression")
+	g.def("argsRegex", "Option String", optStr(argsRe), "source text of the ESMTP parameter expression")
+
+	// ---- index / slice expressions
+	set := map[string]bool{}
+	reached := map[*ast.FuncDecl]bool{}
+	if r.d != nil {
+		r.d.env.skip = nil
+		// the loop itself, then each handler with ($cmd, $arg)
+		visiting := map[*ast.FuncDecl]int{}
+		for _, st := range r.d.states {
+			visiting[r.d.handlers[st]]++ // entered below with their own parameter names
+		}
+		r.d.env.sites(r.d.fn.Body, set, visiting)
+		for _, st := range r.d.states {
+			visiting[r.d.handlers[st]]--
+			if e := r.d.handlerEnv(p, st); e != nil {
+				e.sites(r.d.handlers[st].Body, set, visiting)
+			}
+			visiting[r.d.handlers[st]]++
+		}
+		smtpReach(p, r.d.fn, reached)
+	}
+	// functions of the same file the loop never reaches (constructors, String methods): standalone
+	for _, fd := range p.funcs {
+		if !reached[fd] && r.d != nil && fset.File(fd.Pos()) == fset.File(r.d.fn.Pos()) {
+			vis := map[*ast.FuncDecl]int{fd: 1}
+			for c := range reached {
+				vis[c] = 1
+			}
+			k1NewEnv(p, fd).sites(fd.Body, set, vis)
+		}
+	}
+	sites := []string{}
+	for k := range set {
+		sites = append(sites, k)
+	}
+	sort.Strings(sites)
+	g.def("sliceSites", "List String", strList(sites), "every index / slice expression of the package in canonical form ($cmd / $arg: the handler's parameters, $p: a parameter, $pv / $v: a re-assigned parameter / local, locals replaced by their definitions, helpers looked through)")
+
+	// ---- manager.Deliver
 	mf := parse("pkg/message/manager.go")
 	dl := fn(mf, "StoreManager", "Deliver")
 	deliverFacts := []string{}
@@ -256,4 +603,17 @@ func extractSmtp() {
 		}
 	}
 	g.def("deliverShape", "List String", strList(deliverFacts), "statements of StoreManager.Deliver the model relies on (present ones)")
+}
+
+// smtpReach: the functions reachable from fd through the package's own calls.
+func smtpReach(p *k1Pkg, fd *ast.FuncDecl, seen map[*ast.FuncDecl]bool) {
+	if fd == nil || seen[fd] {
+		return
+	}
+	seen[fd] = true
+	for _, ce := range k1Calls(fd.Body) {
+		if c := p.resolve(ce); c != nil {
+			smtpReach(p, c, seen)
+		}
+	}
 }
